@@ -776,7 +776,8 @@ class Info:
                 return False
             for f in self.free_names(assign.value):
                 rs = self.resolve(f, sc)
-                if rs is None or self.bindings(rs).get(f, 0) != 1:
+                # a sibling class attribute is not in scope where `K.attr` is written
+                if rs is None or not isinstance(rs, ast.Module) or self.bindings(rs).get(f, 0) != 1:
                     return False
             return name not in self.free_names(assign.value)
         if self.bindings(sc).get(name, 0) != 1 or not self.is_pure(assign.value):
@@ -1347,7 +1348,7 @@ def classify_xfun_stmt(feats, status, new, base):
     if status[0] == 'exc' and status[1] in ('UnboundLocalError', 'NameError'):
         mm = re.search(r"variable '(\w+)'|name '(\w+)'", status[2])
         v = mm and (mm.group(1) or mm.group(2))
-        if v in outs and len(outs) == 1 and v not in feats['top_assigned'] and not feats['loaded_outside'] and not feats['ends_with_return']:
+        if v in outs and len(outs) == 1 and v not in feats['top_assigned'] and v not in feats['loaded_outside'] and not feats['ends_with_return']:
             return 'unneeded-last-variable-returned-though-conditionally-assigned'
         if v in feats['stored'] and v in feats['loaded_inside'] and v not in params:
             return 'assigned-variable-read-in-range-not-passed'
@@ -1645,7 +1646,7 @@ def _prog_task(task):
                                 '%s changed the behaviour of the program for a pure selection' % api))
             continue
         # ---- extract_variable: inline the new variable again
-        if kind == 'xvar':
+        if kind == 'xvar' and sel_node is not None:
             m = re.search(r'^([ \t]*)%s = ' % NEW_VAR, new, flags=re.M)
             if not m:
                 res['notes'].append('no assignment to the new name in the new code')
@@ -1756,8 +1757,8 @@ RHS_KINDS = [
     ('[a, b]', 15), ('[j for j in s]', 15), ('{1: a}', 15), ('{a}', 15), ('d if a else d', 1), ('s or s', 2),
     ('a if b else c if a else b', 1), ('a < b < c', 5), ('a in s', 5), ('a is b', 5), ('not a or b', 2),
 ]
-CRITICAL_RHS = ['a', 'a if b else c', 'lambda: a', 'a or b', 'not a', 'a < b', 'a | b', 'a + b', 'a * b', '-a', 'a ** 2',
-                'h(a)', 'a, b', '(a, b)', 'd if a else d', 's or s', '{a}']
+CRITICAL_RHS = ['a if b else c', 'lambda: a', 'a or b', 'not a', 'a < b', 'a + b', '-a', 'a, b', 'd if a else d', 's or s',
+                'a', 'a | b', 'a * b', 'a ** 2', 'h(a)', '(a, b)', '{a}']
 
 # ('{}' marks the slot, grammar level of the slot)
 EXPR_SLOTS = [
@@ -1838,7 +1839,7 @@ def matrix_tasks(ctx):
     rhs_all = [r for r, _ in RHS_KINDS]
     for si, (slot, is_stmt) in enumerate(slots):
         if ctx.quick:
-            rs = list(CRITICAL_RHS) + rng.sample([r for r in rhs_all if r not in CRITICAL_RHS], 3)
+            rs = list(CRITICAL_RHS[:10]) + rng.sample([r for r in rhs_all if r not in CRITICAL_RHS[:10]], 3)
         else:
             rs = rhs_all
         for r in rs:
@@ -1848,7 +1849,7 @@ def matrix_tasks(ctx):
             except SyntaxError:
                 continue      # e.g. `await x` outside async, `yield` with return value checks: not a valid input
             inl.append(('mi:%s|%s' % (r, slot[0]), src, len(inl), dict(mode='matrix-inline'), True))
-        k = 3 if ctx.quick else 10
+        k = 2 if ctx.quick else 10
         for j in range(k):
             sel = SEL_KINDS[(si * 7 + j * 11 + ctx.seed) % len(SEL_KINDS)]
             src = matrix_extract_program(sel, slot, is_stmt)
@@ -2047,6 +2048,7 @@ def stream_programs(ctx):
     results = common.pmap(_prog_task, tasks, chunksize=1 if len(tasks) < 400 else 3)
     ctx.stat('wall_refactorings', round(time.time() - t0, 1))
     icases, imeta, xcases, xmeta = [], [], [], []
+    seen_cases = set()
     outcomes = {}
     rt = dict(ok=0, text_same=0)
     skipped = 0
@@ -2077,11 +2079,15 @@ def stream_programs(ctx):
                              '(the model says it is: C06_extract_then_inline_identity); compile and run found no difference',
                         source=r['src'], request=q, extracted_code=x.get('new')), nofail=True)
             for case, meta in x['inline_cases']:
-                icases.append(case)
-                imeta.append(dict(meta, source=r['src'], request=q, new_code=x.get('new')))
+                if case not in seen_cases:
+                    seen_cases.add(case)
+                    icases.append(case)
+                    imeta.append(dict(meta, source=r['src'], request=q, new_code=x.get('new')))
             for case, meta in x['extract_cases']:
-                xcases.append(case)
-                xmeta.append(dict(meta, source=r['src'], request=q, new_code=x.get('new')))
+                if case not in seen_cases:
+                    seen_cases.add(case)
+                    xcases.append(case)
+                    xmeta.append(dict(meta, source=r['src'], request=q, new_code=x.get('new')))
     ctx.stat('outcomes', dict(sorted(outcomes.items())))
     ctx.stat('roundtrip', rt)
     ctx.stat('inline_references_outside_model_grammar', skipped)
